@@ -533,6 +533,29 @@ fn rsbin_cases(r: &mut Rng, t: Tier, kinds: &[&str], ops: &[&str], extra: &[&str
             c.l(e.to_string());
         }
         bits_queries(r, &mut c, 1, n, &ones, ops, if big { 40 } else { 160 });
+        // the same structure over a bit vector *collected from positions* given out of order and with
+        // repetitions (`Extend<usize>` sets bits one by one; the cached number of ones must not count a
+        // repeated position twice). Own generator state: the rest of the case is unchanged by this addition.
+        if (kind == "rsn" || kind == "rsw") && i % 3 == 0 {
+            let mut r2 = Rng::new(0x5EED_0001 ^ ((i as u64) << 20) ^ n as u64);
+            let span = r2.range(1, 3000) as usize;
+            let k = r2.range(1, 40) as usize;
+            let mut ps: Vec<usize> = (0..k).map(|_| r2.below(span as u64) as usize).collect();
+            for _ in 0..r2.range(1, 6) {
+                let d = *r2.pick(&ps);
+                let at = r2.below(ps.len() as u64 + 1) as usize;
+                ps.insert(at, d);
+            }
+            let len = ps.iter().max().map(|x| x + 1).unwrap_or(0);
+            let mut distinct = ps.clone();
+            distinct.sort();
+            distinct.dedup();
+            // (slots above 9: the clone / serde / clone_from variants keep looking at the main structure)
+            c.l(format!("mk 12 bvpos {}", join(&ps)));
+            c.l(format!("mk 13 {} 12", kind));
+            c.l("dump 13");
+            bits_queries(&mut r2, &mut c, 13, len, &distinct, &["n_ones", "n_zeros", "rank1", "select1", "select0"], 24);
+        }
         out.push(c);
     }
 }
@@ -893,6 +916,18 @@ fn bvm_history_cases(r: &mut Rng, t: Tier, n_cases: usize, out: &mut Vec<Case>) 
         c.l("q 10 len");
         c.l("q 10 count_zeros");
         c.l("dump 10");
+        // the bit iterators (borrowing and consuming) through call histories (own generator state)
+        {
+            let mut r2 = Rng::new(0x5EED_0002 ^ ((i as u64) << 20) ^ len as u64);
+            for slot in [0usize, 1] {
+                for _ in 0..3 {
+                    let hl = r2.range(1, 14) as usize;
+                    c.l(format!("q {} fwdhist {}", slot, iter_history(&mut r2, hl, false)));
+                    let hl = r2.range(1, 14) as usize;
+                    c.l(format!("q {} fwdhist_into {}", slot, iter_history(&mut r2, hl, false)));
+                }
+            }
+        }
         out.push(c);
     }
 }
@@ -2746,6 +2781,22 @@ pub fn cases(prop: &str, t: Tier, seed: u64) -> Vec<Case> {
     // the properties quantify over every value / every reachable state: clones and deserialised copies too
     if ["C01", "C02", "C03", "C04", "C05", "C06", "C07", "C08", "C10", "C12", "C13"].contains(&prop) {
         reached_variants(r, 3, &mut out);
+    }
+    // C04: no history of iterator calls panics either (own generator state; appended at the end of the case)
+    if prop == "C04" {
+        for (ci, c) in out.iter_mut().enumerate() {
+            let is_tree = c.lines.iter().any(|l| l.starts_with("mk 0 qwt") || l.starts_with("mk 0 hqwt") || l.starts_with("mk 0 wt") || l.starts_with("mk 0 hwt"));
+            if !is_tree || c.tags.iter().any(|t| t == "scale" || t == "deepcode") {
+                continue;
+            }
+            let mut r2 = Rng::new(0x5EED_0003 ^ ((ci as u64) << 16) ^ seed);
+            for _ in 0..3 {
+                let hl = r2.range(1, 16) as usize;
+                c.l(format!("q 0 iterhist {}", iter_history(&mut r2, hl, true)));
+                let hl = r2.range(2, 16) as usize;
+                c.l(format!("q 0 iterhist {}", meeting_history(&mut r2, hl)));
+            }
+        }
     }
     out
 }
